@@ -117,26 +117,64 @@ Section Facts.
   Lemma py_get_nat' (d : list cell) q : (q < length d)%nat -> py_get d (Z.of_nat q) = nth_error d q.
   Proof. intros H. unfold py_get. rewrite py_pos_nonneg by lia. rewrite Nat2Z.id. reflexivity. Qed.
 
-  Lemma copy_over_spec ols old_data c labels : forall done m,
+  Lemma erase_deep_cell c on : erase (fst (deep_cell c on)) = erase c.
+  Proof. destruct c; reflexivity. Qed.
+  Lemma map_erase_app (a b : list cell) : map erase (a ++ b) = map erase a ++ map erase b.
+  Proof. apply map_app. Qed.
+
+  (* what the copy loop leaves: the specified series up to the identities of copied objects (exactly it when nothing is deep-copied);
+     the allocator only moves forward; with deep copies every object reference of the result is an old reference of `done`, the
+     fill cell's, or a newly allocated one *)
+  Lemma copy_over_spec deep ols old_data c labels : forall done m on,
     length old_data = length ols ->
     Forall2 pos_rel m (expected_positions ols (length done) labels) ->
-    copy_over (done ++ repeat c (length labels)) m old_data = Ret (done ++ reindexed_data ols old_data c labels).
+    exists res on',
+      copy_over deep (done ++ repeat c (length labels)) m old_data on = Ret (res, on')
+      /\ on <= on'
+      /\ map erase res = map erase (done ++ reindexed_data ols old_data c labels)
+      /\ (deep = false -> res = done ++ reindexed_data ols old_data c labels)
+      /\ (deep = true -> forall id, In id (cell_ids res) -> In id (cell_ids done) \/ In id (cell_ids [c]) \/ on <= id < on').
   Proof.
-    induction labels as [|p r IH]; intros done m HL HF; simpl in *.
-    - inversion HF; subst. reflexivity.
+    induction labels as [|p r IH]; intros done m on HL HF; simpl in *.
+    - inversion HF; subst. rewrite !app_nil_r. exists done, on. split; [reflexivity|]. split; [lia|]. split; [reflexivity|]. split; [reflexivity|].
+      intros _ id Hid. left. exact Hid.
     - destruct (pos p ols) as [q|] eqn:Ep.
       + inversion HF as [|[i l] [i' q'] m' E' [Hi [fl Hl]] HF']; subst. simpl in Hi, Hl. subst i l.
         simpl. apply pos_Some in Ep as [_ Hq]. rewrite py_get_nat' by lia.
         destruct (nth_error old_data q) as [v|] eqn:Ev; [|apply nth_error_None in Ev; lia].
-        rewrite upd_app. rewrite (nth_error_nth _ _ c Ev).
-        replace (done ++ v :: repeat c (length r)) with ((done ++ [v]) ++ repeat c (length r)) by (rewrite <- app_assoc; reflexivity).
-        rewrite (IH (done ++ [v]) m' HL).
-        * rewrite <- app_assoc. reflexivity.
-        * rewrite app_length; simpl. replace (length done + 1)%nat with (S (length done)) by lia. exact HF'.
+        rewrite (nth_error_nth _ _ c Ev).
+        destruct (if deep then deep_cell v on else (v, on)) as [v' n'] eqn:Ed.
+        rewrite upd_app.
+        replace (done ++ v' :: repeat c (length r)) with ((done ++ [v']) ++ repeat c (length r)) by (rewrite <- app_assoc; reflexivity).
+        assert (HF'' : Forall2 pos_rel m' (expected_positions ols (length (done ++ [v'])) r)).
+        { rewrite app_length; simpl. replace (length done + 1)%nat with (S (length done)) by lia. exact HF'. }
+        destruct (IH (done ++ [v']) m' n' HL HF'') as [res [on' [H1 [H2 [H3 [H4 H5]]]]]].
+        assert (Hv : erase v' = erase v /\ on <= n' /\ (deep = false -> v' = v)
+                     /\ (deep = true -> forall id, In id (cell_ids [v']) -> on <= id < n')).
+        { destruct deep; simpl in Ed.
+          - destruct v; inversion Ed; subst; simpl; repeat split; try lia; try discriminate; try tauto.
+            intros _ id0 [H|[]]. lia.
+          - inversion Ed; subst. repeat split; try lia; try discriminate. }
+        destruct Hv as [Hv1 [Hv2 [Hv3 Hv4]]].
+        exists res, on'. split; [exact H1|]. split; [lia|]. split.
+        * rewrite H3. rewrite <- app_assoc. simpl. rewrite !map_erase_app. simpl. rewrite Hv1. reflexivity.
+        * split.
+          -- intros Hd. rewrite (H4 Hd), (Hv3 Hd). rewrite <- app_assoc. reflexivity.
+          -- intros Hd id Hid. destruct (H5 Hd id Hid) as [H|[H|H]].
+             ++ unfold cell_ids in H. rewrite flat_map_app in H. apply in_app_or in H as [H|H]; [left; exact H|].
+                right. right. pose proof (Hv4 Hd id H). lia.
+             ++ right. left. exact H.
+             ++ right. right. lia.
       + replace (done ++ c :: repeat c (length r)) with ((done ++ [c]) ++ repeat c (length r)) by (rewrite <- app_assoc; reflexivity).
-        rewrite (IH (done ++ [c]) m HL).
-        * rewrite <- app_assoc. reflexivity.
-        * rewrite app_length; simpl. replace (length done + 1)%nat with (S (length done)) by lia. exact HF.
+        assert (HF'' : Forall2 pos_rel m (expected_positions ols (length (done ++ [c])) r)).
+        { rewrite app_length; simpl. replace (length done + 1)%nat with (S (length done)) by lia. exact HF. }
+        destruct (IH (done ++ [c]) m on HL HF'') as [res [on' [H1 [H2 [H3 [H4 H5]]]]]].
+        exists res, on'. split; [exact H1|]. split; [exact H2|]. split; [rewrite H3, <- app_assoc; reflexivity|]. split.
+        * intros Hd. rewrite (H4 Hd), <- app_assoc. reflexivity.
+        * intros Hd id Hid. destruct (H5 Hd id Hid) as [H|[H|H]].
+          -- unfold cell_ids in H. rewrite flat_map_app in H. apply in_app_or in H as [H|H]; [left; exact H | right; left; exact H].
+          -- right. left. exact H.
+          -- right. right. exact H.
   Qed.
 
   (* ================= the variables loop ================= *)
